@@ -674,7 +674,7 @@ func TestVerifC28(t *testing.T) {
 			runOne(cs)
 		}
 		r := vNewRand(vSeed())
-		n := vN(600, 8000)
+		n := vN(450, 6000)
 		for i := 0; i < n; i++ {
 			runOne(c28Gen(r.Fork()))
 		}
